@@ -811,6 +811,8 @@ DECO_DEFS = {
 # reference forms; `load: True` = a load-level statement (not inside function u)
 REF_FORMS = {
     "call": ('@T@();', False), "call-twice": ('@T@(); say "mid"; @T@();', False),
+    # not the first / not the last recorded call (function okfn0 is declared at top level)
+    "after-ok-call": ('okfn0(); @T@();', False), "between-ok-calls": ('okfn0(); schedule function @T@() 3t; okfn0();', False),
     "exec": ('execute as @a at @s run @T@();', False),
     "sched": ('schedule function @T@() 5t;', False), "sched-append": ('schedule function @T@() 2s append;', False),
     "sched-clear": ('schedule clear @T@();', False),
@@ -904,6 +906,8 @@ def deco_ref_jobs(rng, tier, registry, probe_hits):
                 ns = NAMESPACES[k % len(NAMESPACES)]
                 pf = [48, 61, 48, 33, 15, 48][k % 6] if not re.search(r"with|macro|\$function", fname + ftext) else [48, 61, 71][k % 3]
                 prelude = 'function base0() { say "b"; }\n' if deco == "add-func" else ""
+                if "okfn0" in ftext:
+                    prelude += 'function okfn0() { say "ok"; }\n'
                 src = deco_ref_program(deco, ftext, is_load, placement, order, cert, ns, prelude)
                 out.append((f"decoref:{deco}:{fname}:{placement}:{order}", dict(src=src, cert=cert_text(cert), pack_format=pf, namespace=ns,
                                                                               header="#override minecraft" if placement == "override-class" else None)))
